@@ -183,8 +183,8 @@ Proof.
 Qed.
 Definition frame_woken := frame_all Rwoken Rwoken_refl Rwoken_trans
   (fun c f H _ => Rwoken_same H (ucmd c f H) eq_refl)
-  (fun c f H => Rwoken_same H (uch c f H) eq_refl)
-  (fun u f H => Rwoken_same H (utf u f H) eq_refl)
+  (fun c f H _ => Rwoken_same H (uch c f H) eq_refl)
+  (fun u f H _ => Rwoken_same H (utf u f H) eq_refl)
   (fun n H => Rwoken_same H (note n H) eq_refl)
   Rwoken_set
   (fun q H => Rwoken_same H (push_xready q H) eq_refl)
